@@ -30,4 +30,9 @@ def Stream.enroll (optsRow : Row) : M Stream Unit := do
     Stream.stream_options optsRow
     modify fun s => { s with enrolled := true }
 
+/-- `Stream.namespace_declaration` (pyjelly/serialize/streams.py:111) -/
+def Stream.namespace_declaration (name : String) (iri : String) : M Stream Unit := do
+  let rows ← zoom (·.enc.te) (fun s v => { s with enc := { s.enc with te := v } }) (encode_namespace_declaration name iri)
+  zoom (·.flow) (fun s v => { s with flow := v }) (flowExtend rows)
+
 end Jelly.Gen
